@@ -399,10 +399,26 @@ func c05Plans(quick bool) []c05Plan {
 	}
 	return []c05Plan{
 		{CoreOnly: true, MaxK: 2, Variants: c05AllVariants},
-		{CoreOnly: false, MaxK: 2, Variants: []string{"bash", "zsh"}},
 		{CoreOnly: true, MaxK: 3, Variants: []string{"bash", "zsh"}},
 		{CoreOnly: true, MaxK: 2, Wide: true, Variants: []string{"bash", "zsh"}},
+		{CoreOnly: false, MaxK: 2, MaxGaps: 10, Variants: []string{"bash", "zsh"}},
 	}
+}
+
+// c05DescribeSets is the part of the rule text about the second generator.
+func c05DescribeSets(quick bool) string {
+	nOuter, nCore := len(c05Outer), 0
+	for _, o := range c05Outer {
+		if o.Core {
+			nCore++
+		}
+	}
+	var parts []string
+	for _, p := range c05Plans(quick) {
+		parts = append(parts, p.String())
+	}
+	return fmt.Sprintf("second generator (keys w:...): composed programs = each of %d outer templates (lists, if/else, loops, case items incl. a last item without ;;, functions, binary commands, $( ), backquotes, <( ), array literals, comment-only bodies, unquoted <</<<- here-documents whose body holds $( ) or backquotes; %d of them form the core subset) with one of its statement holes explored with %d leaf statements and every outer template, the other holes holding an atom; every set of comment insertions (trailing comment / comment line [wide: also two comment lines, trailing comment + comment line], texts unique per gap) at the comment-capable gaps of the composed program, INCLUDING gaps inside a substitution in a here-document body, x 2 layouts of the remaining gaps (;/space, newline): %s",
+		nOuter, nCore, len(c05Leaves), strings.Join(parts, "; "))
 }
 
 // c05GenSets emits the cases of the second generator (Kind 5). Programs the
@@ -420,6 +436,9 @@ func c05GenSets(c *vc.Ctx, first map[string]bool, emit func(synCase)) {
 				continue
 			}
 			c.Count("w_templates", 1)
+			if c.Expired() {
+				return
+			}
 			c05Sets(t, p.MaxK, p.Wide, 2, func(src string) {
 				if first[src] {
 					return
